@@ -217,8 +217,12 @@ section Verify
 variable [DecidableEq F]
 
 /-- `VerifierKey::verify`: `ep = msm(powers_of_g2, [-α, 1])`, `lhs = C - g·evaluation`,
-`e(lhs, g2) == e(proof, ep)`; indexing `powers_of_g[0]`, `powers_of_g2[0]` aborts on empty keys. -/
+`e(lhs, g2) == e(proof, ep)`; keys with fewer than two G2 powers or no G1 power are refused first. -/
 def verify (vk : VK F) (c α v π : F) : Except Err Bool :=
+  -- fewer than two G2 powers (a key made for zero evaluation points) or no G1 power:
+  -- `Err(VerificationError)`, a rejection (fix D22; the MSM below truncates silently)
+  if vk.powersOfG2.length < 2 ∨ vk.powersOfG.length = 0 then .ok false
+  else
   match vk.powersOfG, vk.powersOfG2 with
   | g :: _, g2 :: _ => .ok (decide ((c - g * v) * g2 = π * dot vk.powersOfG2 [-α, 1]))
   | _, _ => .error .abort
